@@ -99,5 +99,26 @@ impl Style {
     //@before <<<let style_str =>>>| proof { reveal_strlit(""); if self.ansi_term_style.background is Some { lemma_views_push(w11, words@.last()); } } assert(/* @C12:display.words.step */ views(words@) == canon_words(*self));
 }
 
+// ---- color.rs color_to_string: the word --show-config prints for a colour (the parser must read it back) ----
+/// (R3) `ansi_16_color_number_to_name(n).unwrap().to_string()` (a table lookup; n < 16)
+#[verifier::external_body]
+pub fn verif_ansi16_name(n: u8) -> (r: String)
+    requires n < 16,  // @C03:the.table.of.colour.names.has.sixteen.entries
+    ensures r@ == ansi16_name(n),
+{ unimplemented!() }
+/// (R3) `format!("{n}")` for a u8
+#[verifier::external_body]
+pub fn verif_decimal_u8(n: u8) -> (r: String) ensures r@ == usize_decimal(n as usize) { unimplemented!() }
+/// (R3) `format!("\"#{r:02x?}{g:02x?}{b:02x?}\"")`: `rgb_word` = the quoted colour `"#rrggbb"`, TWO lower-case hex digits per
+/// channel (what the colour parser accepts). Any other spelling of this `format!` is an opaque string (rule E4) and fails the clause.
+#[verifier::external_body]
+pub fn verif_rgb_hex(r: u8, g: u8, b: u8) -> (s: String) ensures s@ == rgb_word(r, g, b) { unimplemented!() }
+pub use crate::AtColour as Color;
+//@ fn src/color.rs color_to_string as=color_to_string_body
+//@| ensures r@ == color_word(color),  // @C12:a.colour.is.printed.as.its.name.its.number.or.its.six.hex.digits.the.forms.the.parser.reads.back
+//@rewrite <<<ansi_16_color_number_to_name(n).unwrap().to_string()>>> => <<<verif_ansi16_name(n)>>>
+//@rewrite <<<format!("{n}")>>> => <<<verif_decimal_u8(n)>>>
+//@rewrite <<<format!("\"#{r:02x?}{g:02x?}{b:02x?}\"")>>> => <<<verif_rgb_hex(r, g, b)>>>
+
 } // verus!
 fn main() {}
